@@ -446,12 +446,18 @@ def run_shard_robust(binary, cases, workdir, tag, model, timeout):
     results = {}
     pending = list(cases)
     rnd = 0
+    hangs = 0
     while pending:
+        if hangs >= 2:
+            # two confirmed hangs in this shard: the run is a violation already; do not spend the time limit on every further case
+            for c in pending:
+                results[c.cid] = [['not-run-after-hangs']]
+            break
         path = os.path.join(workdir, '%s_%d.txt' % (tag, rnd))
         write_script(path, pending, model)
         # the time limit grows with the amount of work in the shard (a hang is a case that exceeds it on its own)
         nops = sum(len(c.meta['model_ops'] if model else c.ops) for c in pending)
-        rc, out, timed_out = run_bin(binary, path, timeout + 0.1 * len(pending) + 0.002 * nops)
+        rc, out, timed_out = run_bin(binary, path, (timeout + 0.1 * len(pending) + 0.002 * nops) * (3 if model else 1))
         parsed = parse_output(out)
         if rc == 0 and not timed_out:
             results.update(parsed)
@@ -460,7 +466,19 @@ def run_shard_robust(binary, cases, workdir, tag, model, timeout):
         done = [c for c in pending if c.cid in parsed]
         if not done:
             culprit = pending[0]
+            nops0 = len(culprit.meta['model_ops'] if model else culprit.ops)
+            if timed_out and len(pending) > 1:
+                solo = os.path.join(workdir, '%s_%d_solo.txt' % (tag, rnd))
+                write_script(solo, [culprit], model)
+                rc2, out2, to2 = run_bin(binary, solo, (timeout * 6 if model else timeout) + 0.01 * nops0)
+                p2 = parse_output(out2)
+                if rc2 == 0 and not to2 and culprit.cid in p2:
+                    results[culprit.cid] = p2[culprit.cid]
+                    pending = pending[1:]
+                    rnd += 1
+                    continue
             results[culprit.cid] = [['hang' if timed_out else 'crash']]
+            hangs += 1 if timed_out else 0
             pending = pending[1:]
         else:
             culprit = done[-1]
@@ -468,7 +486,22 @@ def run_shard_robust(binary, cases, workdir, tag, model, timeout):
                 results[c.cid] = parsed[c.cid]
             nops = len(culprit.meta['model_ops'] if model else culprit.ops)
             got = parsed[culprit.cid]
+            if timed_out:
+                # the shard's time budget ran out while this case was running: that alone does not make it a hang (machine load, a long
+                # shard).  Run it again on its own with a fresh budget (a larger one for the model, whose exact arithmetic is slower).
+                solo = os.path.join(workdir, '%s_%d_solo.txt' % (tag, rnd))
+                write_script(solo, [culprit], model)
+                rc2, out2, to2 = run_bin(binary, solo, (timeout * 6 if model else timeout) + 0.01 * nops)
+                p2 = parse_output(out2)
+                if rc2 == 0 and not to2 and culprit.cid in p2:
+                    results[culprit.cid] = p2[culprit.cid]
+                    pending = pending[pending.index(culprit) + 1:]
+                    rnd += 1
+                    continue
+                if culprit.cid in p2 and len(p2[culprit.cid]) > len(got):
+                    got = p2[culprit.cid]; timed_out = to2
             got = got + [['hang' if timed_out else 'crash']] * (nops - len(got))
+            hangs += 1 if timed_out else 0
             results[culprit.cid] = got
             pending = pending[pending.index(culprit) + 1:]
         rnd += 1
